@@ -2046,6 +2046,10 @@ func (t *tScreen) engage() error {
 	if t.tty == nil {
 		return ErrNoScreen
 	}
+	if t.fini {
+		// Fini has given the terminal back for good
+		return errors.New("screen is finalized")
+	}
 	t.tty.NotifyResize(func() {
 		select {
 		case t.resizeQ <- true:
